@@ -517,3 +517,83 @@ func init() {
 			Why: "'[text][]' without a definition: '][]' is added as text and then '[' and ']' are tokenized again"},
 	)
 }
+
+// ---------------------------------------------------------------------------------------------
+// HOOK-END: a close hook does not move the end of the block it is handed.
+
+func ruleHookEnd(c *Ctx) {
+	c.Rule("HOOK-END", "A block's End is set where it is closed (the start of the line that ends it, or the cursor); makeRoot cuts the buffer at the End of the first closed top-level block. The onClose hooks of blockRules may drop or re-label children and split definitions off the front, but none of them — nor a helper they hand the block to — stores the End of the span of the block they are handed: an indented code block whose End is pulled back to its last non-blank line leaves its trailing blank lines in the buffer, and the next root block's Source then begins with them (its span is no longer preceded only by spaces and tabs, and its StartLine/StartOffset point at a blank line).")
+	p := c.P
+	n := 0
+	for k, e := range blockRulesTable(p) {
+		if e.onClose == nil {
+			continue
+		}
+		n++
+		hook := e.onClose
+		var blk *ssa.Parameter
+		for _, q := range hook.Params {
+			if typeName(deref(q.Type())) == "Block" {
+				blk = q
+			}
+		}
+		key := fmt.Sprintf("blockRules[%s].onClose", blockKindName(p, k))
+		if blk == nil {
+			c.Undecided("HOOK-END", key, hook.Pos(), "the hook has no block parameter")
+			continue
+		}
+		bad := ""
+		var scan func(fn *ssa.Function, b ssa.Value, depth int)
+		seenFn := map[*ssa.Function]bool{}
+		scan = func(fn *ssa.Function, b ssa.Value, depth int) {
+			if seenFn[fn] || depth > 2 {
+				return
+			}
+			seenFn[fn] = true
+			for _, g := range withAnons(fn) {
+				eachInstr(g, func(in ssa.Instruction) {
+					switch x := in.(type) {
+					case *ssa.Store:
+						fa, ok := x.Addr.(*ssa.FieldAddr)
+						if !ok {
+							return
+						}
+						if tn, f, _ := fieldAddrInfo(fa); tn != "Span" || f != "End" {
+							return
+						}
+						inner, ok := fa.X.(*ssa.FieldAddr)
+						if !ok {
+							return
+						}
+						if tn, f, _ := fieldAddrInfo(inner); tn != "Block" || f != "span" {
+							return
+						}
+						if q, ok := spilledParam(inner.X); ok && ssa.Value(q) == b {
+							bad = "the End of the handed block's span is stored at " + p.Pos(x.Pos())
+						}
+					case *ssa.Call:
+						if cal := x.Call.StaticCallee(); cal != nil && p.InModule(cal) && cal.Blocks != nil {
+							for i, a := range x.Call.Args {
+								if q, ok := spilledParam(a); ok && ssa.Value(q) == b && i < len(cal.Params) {
+									scan(cal, cal.Params[i], depth+1)
+								}
+							}
+						}
+					}
+				})
+			}
+		}
+		scan(hook, blk, 0)
+		c.Check(bad == "", "HOOK-END", key, hook.Pos(), bad)
+	}
+	if n < 2 {
+		c.Undecided("HOOK-END", "instance-count", token.NoPos, fmt.Sprintf("%d onClose hooks found in blockRules; at least 2 confirmed by hand", n))
+	}
+}
+
+func init() {
+	addControls(
+		Control{Name: "indented-code-end-pulled-back-to-last-line", Props: []string{"C02", "C01"}, File: "blocks.go",
+			Old: "\t\t\t\tblock.inlineChildren = block.inlineChildren[:i:i]\n", New: "\t\t\t\tblock.inlineChildren = block.inlineChildren[:i:i]\n\t\t\t\tblock.span.End = child.Span().Start\n", Expect: "HOOK-END/blockRules[IndentedCodeBlockKind]"},
+	)
+}
